@@ -501,10 +501,13 @@ class BaseOrchestrator(ABC):
         #     it should try to finish all the calls in this function
 
         # TODO store Retry exception on Retry status
+        # The counter is incremented BEFORE the RETRY status is published: RETRY is
+        # available-for-run, so a runner serving a waiting parent can pick the invocation
+        # up right away, and its max-retries test must already see this retry.
+        self.app.orchestrator.increment_invocation_retries(invocation_id)
         self.app.orchestrator.set_invocation_status(
             invocation_id, InvocationStatus.RETRY, runner_ctx
         )
-        self.app.orchestrator.increment_invocation_retries(invocation_id)
         self.app.broker.route_invocation(invocation_id)
 
     def is_candidate_to_run_by_concurrency_control(
